@@ -77,7 +77,25 @@ func (h *DirHandler) AddOut(msg *fbb.Message) error {
 		return err
 	}
 
-	return ioutil.WriteFile(path.Join(h.MBoxPath, DIR_OUTBOX, msg.MID()+Ext), data, 0644)
+	return writeFile(path.Join(h.MBoxPath, DIR_OUTBOX, msg.MID()+Ext), data, 0644)
+}
+
+// writeFile writes data to a hidden temporary file next to filename and then renames it to filename.
+//
+// This ensures that filename always holds a complete message (the old or the new version), even if
+// the process dies while writing. A partially written file would make the folder unreadable and would
+// be mistaken for an already received message.
+func writeFile(filename string, data []byte, perm os.FileMode) error {
+	tmp := path.Join(path.Dir(filename), "."+path.Base(filename)+".tmp")
+	if err := ioutil.WriteFile(tmp, data, perm); err != nil {
+		os.Remove(tmp)
+		return err
+	}
+	if err := os.Rename(tmp, filename); err != nil {
+		os.Remove(tmp)
+		return err
+	}
+	return nil
 }
 
 func (h *DirHandler) ProcessInbound(msgs ...*fbb.Message) (err error) {
@@ -95,7 +113,7 @@ func (h *DirHandler) ProcessInbound(msgs ...*fbb.Message) (err error) {
 			return err
 		}
 
-		if err = ioutil.WriteFile(filename, data, 0664); err != nil {
+		if err = writeFile(filename, data, 0664); err != nil {
 			return fmt.Errorf("Unable to write received message (%s): %s", filename, err)
 		}
 	}
@@ -298,5 +316,5 @@ func SetUnread(msg *fbb.Message, unread bool) error {
 	if filePath == "" {
 		return fmt.Errorf("Missing X-FilePath header")
 	}
-	return ioutil.WriteFile(filePath, data, 0644)
+	return writeFile(filePath, data, 0644)
 }
